@@ -86,7 +86,7 @@ def explore(ctx):
             for k in range(nsteps):
                 structs = list(d._structures_dict.values())
                 op = rng.choice(['level', 'descendants', 'npix', 'peak', 'ancestor', 'mask', 'newick', 'to_newick',
-                                 'prune', 'prune', 'saveload', 'plotter', 'plotter_reuse'])
+                                 'prune', 'prune', 'saveload', 'plotter', 'plotter_reuse', 'lines'])
                 try:
                     if op in ('level', 'descendants', 'npix', 'peak', 'ancestor', 'mask', 'newick') and structs:
                         s = rng.choice(structs)
@@ -120,7 +120,19 @@ def explore(ctx):
                         nb = len(d)
                         # the criteria list this call will use, for the Coq model
                         pb = tie.params_scaled(d, c)
-                        d.prune(**dc.prune_kwargs(c, step))
+                        kw = dc.prune_kwargs(c, step)
+                        peek = rng.random() < 0.3
+                        if peek:
+                            # a user criterion that accepts everything but looks at cached quantities while the
+                            # tree is being rewritten
+                            def peeking(structure, index=None, value=None):
+                                structure.level, structure.descendants, structure.get_npix(), structure.ancestor
+                                if structure.parent is not None:
+                                    structure.parent.level, structure.parent.descendants
+                                return True
+                            cur = kw.get('is_independent')
+                            kw['is_independent'] = ([] if cur is None else (list(cur) if isinstance(cur, (list, tuple)) else [cur])) + [peeking]
+                        d.prune(**kw)
                         if queried and len(d) < nb:
                             pruned_after_query = True
                         eff_d = step.get('delta', 0) or pb[0]
@@ -128,7 +140,7 @@ def explore(ctx):
                         cs = ['MinDelta %s' % cz(eff_d), 'MinNpix %s %s' % (cz(eff_n[0]), cz(eff_n[1]))] + [tie.coq_one_crit(x) for x in step.get('crit', [])]
                         coq_ops.append('OPrune [%s]' % '; '.join(cs))
                         coq_obs.append('EF %s' % tie.coq_structs(impl.structs_view(d, shape)))
-                        history.append(['prune', step])
+                        history.append(['prune', step] + (['with a criterion that reads level/descendants/npix'] if peek else []))
                     elif op == 'saveload':
                         fmt = rng.choice(['hdf5', 'fits'])
                         d2 = dc.save_load(d, fmt)
@@ -140,6 +152,12 @@ def explore(ctx):
                     elif op == 'plotter':
                         plotter = d.plotter()
                         history.append([op])
+                    elif op == 'lines' and structs:
+                        # drawing a structure with its subtree must not disturb what the structures report
+                        s = rng.choice(structs)
+                        pl = d.plotter()
+                        pl.get_lines(structures=rng.choice([s, [s], s.idx, [int(s.idx)]]), subtree=True)
+                        history.append([op, int(s.idx)])
                     elif op == 'plotter_reuse' and plotter is not None:
                         plotter.sort()
                         pos = sorted((int(s.idx), round(float(x), 9)) for s, x in plotter._cached_positions.items())
